@@ -17,6 +17,7 @@
 (* Actions = the public calls, one each:                                   *)
 (*   Add(ts,kind)      add_event(e)                                        *)
 (*   AddMany(b)        add_events([e1, e2, ...])                           *)
+(*   AddManyFail(b,k)  add_events(iterable that raises after k events)     *)
 (*   GetEvent(e)       get_event()  -> e, ANY pending event of minimal     *)
 (*                     (ts, precedence): the specification does not say    *)
 (*                     which of several equal-key events comes first       *)
@@ -137,6 +138,24 @@ AddMany(b) ==
     /\ UNCHANGED rets
     /\ Step([op |-> "add_many", evs |-> b])
 
+\* add_events(iterable) where the iterable itself fails (raises) after having produced the first k events of b.
+\* Whatever the call has taken in by then stays pending (K, a subset of those k events) and the queue is as good
+\* as before: every later call behaves as the pending set says.  The code adds event by event, so K is all k of
+\* them (AddManyFail); the trace specification accepts the K the implementation reports (any subset).  The ids of
+\* the k events produced are used up either way.
+AddManyKept(b, k, K) ==
+    /\ CanCall
+    /\ k \in 0..(Len(b) - 1)
+    /\ nextId + k - 1 <= MaxEv
+    /\ K \subseteq SeqRange(Stamped(SubSeq(b, 1, k), nextId))
+    /\ pending' = pending \cup K
+    /\ added' = IF Hist THEN added \cup K ELSE added
+    /\ nextId' = nextId + k
+    /\ out' = [op |-> "add_many_fail"]
+    /\ UNCHANGED rets
+    /\ Step([op |-> "add_many_fail", evs |-> b, k |-> k])
+AddManyFail(b, k) == AddManyKept(b, k, SeqRange(Stamped(SubSeq(b, 1, k), nextId)))
+
 \* get_event(): heappop.  e is the event returned.
 GetEvent(e) ==
     /\ CanCall
@@ -213,12 +232,13 @@ GetCurrentOutcomes(t) ==
 \* named so that -coverage reports one line per call
 DoAdd        == \E ts \in Ts, k \in Kinds : Add(ts, k)
 DoAddMany    == \E b \in Batches : AddMany(b)
+DoAddManyFail == \E b \in Batches : \E k \in 0..(Len(b) - 1) : AddManyFail(b, k)
 DoGetEvent   == CanCall /\ \E e \in GetEventOutcomes : GetEvent(e)
 GetCurrentAt(t) == CanCall /\ \E r \in GetCurrentOutcomes(t) : GetCurrent(t, r)
 DoGetCurrent == \E t \in Probes : GetCurrentAt(t)
 
 Next ==
-    \/ DoAdd \/ DoAddMany \/ DoGetEvent \/ DoGetCurrent
+    \/ DoAdd \/ DoAddMany \/ DoAddManyFail \/ DoGetEvent \/ DoGetCurrent
     \/ QLen \/ QEmpty \/ QLastTs \/ RoundTrip
     \/ Finish \/ Terminated
 
